@@ -12,6 +12,7 @@ HEAP_SCHEMA = {
     "requesting_process": ("obj", "proc"),
     "resourcename": ("obj", "store"),
     "put_time": ("num", "real"),
+    "filter": ("obj", "filter"),
     "length": ("num", "real"),
     "conveyor_entry_time": ("num", "real"),
     "conveyor_ready_item_entry_time": ("num", "real"),
